@@ -402,6 +402,8 @@ class TensorLib:
     # -- construction / conversion
     def op_astensor(self, x, dtype="float"):
         eng = self.eng
+        if isinstance(x, float) and x in (float("inf"), float("-inf")):
+            return x                # stays the concrete IEEE infinity; only comparisons are modelled for it
         if isinstance(x, PT):
             t = x
         elif isinstance(x, (list, tuple)):
